@@ -451,18 +451,20 @@ INVARIANT ConformsCollect
 """
 
 
-def judge(ctx, tag, module, cfg, mc_text, events, witness_of):
+def judge(ctx, tag, module, cfg, mc_text, events, witness_of, coverage=None):
     """one TLC trace-validation run; Impl*/Inv* violations are property violations,
     Conforms* alone is specification drift."""
     res = ctx.tlc(module, cfg_text=cfg, extra_files={module + ".tla": mc_text}, requirement=False,
-                  extra_args=("-continue",), keep=True, coverage=not ctx.quick)
+                  extra_args=("-continue",), keep=True,
+                  coverage=(not ctx.quick) if coverage is None else coverage)
     violated = sorted(set(n for n, _ in res.violations))
     witness = {}
     for n, tr in res.violations:
         if n not in witness and tr:
             witness[n] = witness_of(tr[-1][1].get("ev", {}))
-    ctx.extra[tag + "_violated_invariants"] = violated
-    ctx.extra[tag + "_action_coverage"] = {k: v[1] for k, v in res.coverage.items()}
+    ctx.extra[tag + "_violated_invariants"] = sorted(set(ctx.extra.get(tag + "_violated_invariants", [])) | set(violated))
+    if res.coverage:
+        ctx.extra[tag + "_action_coverage"] = {k: v[1] for k, v in res.coverage.items()}
     if res.violated and not violated:      # assumption / evaluation problem reported as violation by the runner
         raise tlcmod.MachineryError("TLC reported %s on %s\n%s" % (res.violated, module, res.stdout[-2000:]))
     chk = [v for v in violated if v.startswith("Check")]
@@ -1028,6 +1030,304 @@ def self_check_specs(ctx):
     ctx.extra["spec_self_check"] = report
 
 
+# ---------------------------------------------------------------------------
+# histories on one instance (spec/RandomDispHistory.tla): TLC enumerates, the real class is driven along
+# every history (spec -> code), the recorded provenances are validated by TLC (code -> spec)
+# ---------------------------------------------------------------------------
+HIST_TEMPS = {"T1": 300.0, "T2": 20.0}
+HIST_SCALES = {"s1": 1.25, "s2": 0.7}
+HIST_CRYSTALS = [("sc", [[2, 1, 0], [0, 2, 0], [0, 0, 1]], None), ("tric", [[3, 0, 0], [0, 1, 0], [0, 0, 1]], None)]
+
+MC_HIST = """---- MODULE MC_RandomDispHistory ----
+EXTENDS RandomDispHistory
+MCTemps == {"T1", "T2"}
+MCScales == {"s1", "s2"}
+MCMaxLen == %d
+MCInvalidate == %s
+====
+"""
+CFG_HIST = """SPECIFICATION Spec
+CONSTANTS
+ Temps <- MCTemps
+ Scales <- MCScales
+ MaxLen <- MCMaxLen
+ Invalidate <- MCInvalidate
+CHECK_DEADLOCK FALSE
+INVARIANT InvCanonicalAfterAnyHistory
+INVARIANT InvEig
+INVARIANT InvCacheCoherent
+INVARIANT InvRunMatchesCorrelation
+"""
+MC_HISTT = """---- MODULE MC_RandomDispHistoryTrace ----
+EXTENDS RandomDispHistoryTrace
+MCTemps == {"T1", "T2"}
+MCScales == {"s1", "s2"}
+MCMaxLen == %d
+MCInvalidate == TRUE
+MCEvents == {%s}
+====
+"""
+CFG_HISTT = """INIT TInit
+NEXT TNext
+CONSTANTS
+ Temps <- MCTemps
+ Scales <- MCScales
+ MaxLen <- MCMaxLen
+ Invalidate <- MCInvalidate
+ Events <- MCEvents
+CHECK_DEADLOCK FALSE
+INVARIANT ImplCanonicalAfterAnyHistory
+INVARIANT InvCanonicalAfterAnyHistory
+INVARIANT InvCacheCoherent
+INVARIANT ConformsHistory
+INVARIANT ConformsObservations
+"""
+P_NONE = dict(T="-", eig=["-"])
+P_UNKNOWN = dict(T="?", eig=["?"])
+
+
+@contextlib.contextmanager
+def single_omp_thread():
+    """thousands of 4-9 atom kernel calls: OpenMP team start-up on a busy machine costs ~100 ms per call;
+    the kernels' results do not depend on the thread count (C13's subject)."""
+    import ctypes
+    try:
+        g = ctypes.CDLL("libgomp.so.1")
+        nthr = g.omp_get_max_threads()
+        g.omp_set_num_threads(1)
+    except OSError:
+        g = None
+    try:
+        yield
+    finally:
+        if g is not None:
+            g.omp_set_num_threads(nthr)
+
+
+class HistoryOracle:
+    """canonical covariance and force constants of every (eigen-solution version, T) of a history, from the
+    supercell modes of the exact force constants.  A modification acts on the frequencies mode by mode
+    (scale: f -> s f; treat: f -> |f|, + 1 THz inside (0.01, 0.5) THz), i.e. as a matrix function of the
+    supercell dynamical matrix, so it is applied to the supercell spectrum directly."""
+
+    def __init__(self, fc, masses, cutoff=0.01):
+        f, lam, self.V, self.msq = num.supercell_modes(fc, masses)
+        self.f0 = f * np.sign(lam)
+        self.n = len(masses)
+        self.cutoff = cutoff
+        self._cov, self._fc = {}, {}
+
+    def freqs(self, ver):
+        f = self.f0.copy()
+        for m in ver:
+            if m == "treat":
+                a = np.abs(f)
+                for edge in (0.01, 0.5):
+                    if np.min(np.abs(a - edge) / edge) < 1e-7:
+                        raise tlcmod.MachineryError("frequency on the edge of the treat_imaginary_modes window")
+                f = np.where((a > 0.01) & (a < 0.5), a + 1.0, a)
+            else:
+                f = f * HIST_SCALES[m]
+        return f
+
+    def cov(self, ver, tid):
+        key = (tuple(ver), tid)
+        if key not in self._cov:
+            f = np.abs(self.freqs(ver))
+            keep = f > self.cutoff
+            if np.min(np.abs(f - self.cutoff) / np.maximum(f, self.cutoff)) < 1e-5:
+                raise tlcmod.MachineryError("frequency on the cutoff in a history")
+            a2 = np.zeros_like(f)
+            a2[keep] = num.mode_a2(f[keep], HIST_TEMPS[tid], "quantum")
+            self._cov[key] = (self.V * a2) @ self.V.T / np.outer(self.msq, self.msq)
+        return self._cov[key]
+
+    def fc(self, ver):
+        key = tuple(ver)
+        if key not in self._fc:
+            f = self.freqs(ver)
+            lam = (f / num.freq_thz(1.0)) ** 2 * np.sign(f)
+            self._fc[key] = num.to4((self.V * lam) @ self.V.T * np.outer(self.msq, self.msq), self.n)
+        return self._fc[key]
+
+    def match_cov(self, C, eig, tid, versions):
+        """provenance of an observed covariance: the current (eig, T) first, then anything of the history."""
+        cands = [(eig, tid)] + [(v, t) for v in versions for t in sorted(HIST_TEMPS) if (v, t) != (eig, tid)]
+        for v, t in cands:
+            if num.relerr(C, self.cov(v, t)) <= TOL * 1e-12:
+                return dict(T=t, eig=list(v)), num.relerr(C, self.cov(eig, tid))
+        return dict(P_UNKNOWN), num.relerr(C, self.cov(eig, tid))
+
+    def match_fc(self, F, eig, versions):
+        for v in [eig] + [v for v in versions if v != eig]:
+            if num.relerr(F, self.fc(v)) <= TOL * 1e-12:
+                return dict(T="-", eig=list(v)), num.relerr(F, self.fc(eig))
+        return dict(P_UNKNOWN), num.relerr(F, self.fc(eig))
+
+
+def perform_history(ph, fc, horc, hist, route, seed):
+    """drive one real instance along `hist`; -> observed provenance after every action, worst deviation."""
+    n = len(ph.supercell)
+    if route == "api":
+        with contextlib.redirect_stdout(io.StringIO()):
+            ph.init_random_displacements()
+        rd = ph.random_displacements
+    else:
+        rd = RandomDisplacements(ph.supercell, ph.primitive, fc.copy())
+    eig = []
+    versions = [[]]
+    obs = []
+    worst = 0.0
+    for act in hist:
+        a, arg = act["a"], act["arg"]
+        if a == "run":
+            T = HIST_TEMPS[arg]
+            ok_lin = True
+            if route == "api":
+                if ph.random_displacements is not rd:
+                    raise AssertionError("Phonopy replaced its RandomDisplacements instance")
+                d = ph.get_random_displacements_at_temperature(T, 2, random_seed=seed)
+            A = extract_linear_map(rd, T)
+            if route == "api":
+                nb = len(rd._eigvals_ii[0])
+                xi = variates(seed, len(rd._ii), len(rd._ij), nb, 2)
+                ok_lin = float(np.abs(d.reshape(2, -1) - xi @ A).max() / max(np.abs(A).max(), 1e-300)) <= TOL * 1e-12
+            p, dev = horc.match_cov(A.T @ A, eig, arg, versions)
+            if not ok_lin:
+                p = dict(P_UNKNOWN)
+            obs.append(p)
+        elif a == "set":
+            rd.frequencies = rd.frequencies * HIST_SCALES[arg]
+            eig = eig + [arg]
+            versions.append(eig)
+            obs.append(dict(P_NONE))
+            dev = 0.0
+        elif a == "treat":
+            rd.treat_imaginary_modes()
+            eig = eig + ["treat"]
+            versions.append(eig)
+            p, dev = horc.match_fc(rd.force_constants, eig, versions)
+            obs.append(p)
+        elif a == "corr":
+            rd.run_correlation_matrix(HIST_TEMPS[arg])
+            p, dev = horc.match_cov(np.array(rd.uu).transpose(0, 2, 1, 3).reshape(3 * n, 3 * n), eig, arg, versions)
+            obs.append(p)
+        elif a == "d2f":
+            rd.run_d2f()
+            p, dev = horc.match_fc(rd.force_constants, eig, versions)
+            obs.append(p)
+        else:
+            raise tlcmod.MachineryError("unknown action %s" % a)
+        if obs[-1] == dict(T=arg if a in ("run", "corr") else "-", eig=eig) or a == "set":
+            worst = max(worst, dev)
+    return obs, worst
+
+
+def run_history(ctx, oracles):
+    with single_omp_thread():
+        _run_history(ctx, oracles)
+
+
+def _run_history(ctx, oracles):
+    from harness import tla_values
+
+    maxlen = 3 if ctx.quick else 4
+    mc = MC_HIST % (maxlen, "TRUE")
+    res = ctx.tlc("MC_RandomDispHistory", cfg_text=CFG_HIST, extra_files={"MC_RandomDispHistory.tla": mc},
+                  requirement=True, dump=True, keep=True, coverage=True,
+                  what="the history machine of RandomDisplacements violates its own requirement (specification defect)")
+    cov = {k: v[1] for k, v in res.coverage.items()}
+    states = [] if res.violated else tla_values.parse_dump(res.dump_path)
+    tlcmod.cleanup(res)
+    if not res.violated:
+        for a in ("Run", "SetFrequencies", "TreatImaginary", "RunCorrelation", "RunD2F"):
+            if cov.get(a, 0) == 0:
+                raise tlcmod.MachineryError("action %s of RandomDispHistory never fired" % a)
+    # the requirement is not vacuous: a cache keyed on the temperature only must violate it
+    bad = tlcmod.run("MC_RandomDispHistory", cfg_text=CFG_HIST, extra_files={"MC_RandomDispHistory.tla": MC_HIST % (3, "FALSE")},
+                     extra_args=("-continue",), workers=2)
+    tlcmod.cleanup(bad)
+    got = set(nm for nm, _ in bad.violations)
+    if not {"InvCanonicalAfterAnyHistory", "InvCacheCoherent"} <= got:
+        raise tlcmod.MachineryError("stale-cache variant of the history machine not rejected (%s)" % sorted(got))
+    full = [st for st in states if len(st["hist"]) == maxlen]
+    ctx.extra["history_model"] = dict(max_length=maxlen, states=len(states), histories=len(full), action_coverage=cov,
+                                      stale_cache_variant_rejected_by=sorted(got))
+    rng = random.Random(7 * ctx.seed + 4)
+    plans = []      # (crystal, route, histories)
+    observing = [st for st in full if any(x["a"] != "set" for x in st["hist"])]
+    if ctx.quick:
+        short = [st for st in states if len(st["hist"]) == 3]
+        plans.append((HIST_CRYSTALS[0], "class", observing))
+        plans.append((HIST_CRYSTALS[1], "class", rng.sample(observing, 96)))
+        plans.append((HIST_CRYSTALS[0], "api", rng.sample(observing, 96)))
+    else:
+        len3 = [st for st in states if len(st["hist"]) == 3 and any(x["a"] != "set" for x in st["hist"])]
+        plans.append((HIST_CRYSTALS[0], "class", observing))
+        plans.append((HIST_CRYSTALS[1], "class", len3))
+        plans.append((HIST_CRYSTALS[0], "api", len3))
+        plans.append((HIST_CRYSTALS[1], "api", rng.sample(len3, 128)))
+    events = []
+    worst = 0.0
+    nrep = 0
+    for (entry, S, cent), route, hs in plans:
+        orc = oracles[entry]
+        with contextlib.redirect_stdout(io.StringIO()):
+            ph = Phonopy(orc.unitcell(), supercell_matrix=S, primitive_matrix=cent, log_level=0)
+        fc0 = orc.supercell_fc(S, ph.supercell)
+        # stiffness scale: the upper edge (0.5 THz) of the treat_imaginary_modes window falls into a spectral gap
+        f, lam, V, msq = num.supercell_modes(fc0, np.array(ph.supercell.masses))
+        lv = num.levels(f)
+        mid = num.gap_value(lv, max(1, len(lv) // 2))
+        fc = fc0 * (0.5 / mid) ** 2
+        horc = HistoryOracle(fc, np.array(ph.supercell.masses))
+        if route == "api":
+            with contextlib.redirect_stdout(io.StringIO()):
+                ph.force_constants = fc.copy()
+        for st in hs:
+            hist = [dict(a=x["a"], arg=x["arg"]) for x in st["hist"]]
+            want = [dict(T=o["T"], eig=list(o["eig"])) for o in st["obs"]]
+            key = dict(crystal=entry, S=S, route=route, history=hist)
+            try:
+                obs, w = perform_history(ph, fc, horc, hist, route, 4000 + ctx.seed)
+            except tlcmod.MachineryError:
+                raise
+            except Exception as e:
+                ctx.violation("history:exception", "%s raised along a history on one instance" % type(e).__name__,
+                              dict(key, exception="%s: %s" % (type(e).__name__, e)))
+                continue
+            worst = max(worst, w)
+            nrep += 1
+            ctx.count(("history", entry, route, to_tla(hist)))
+            for k in range(len(hist)):
+                if obs[k] != want[k]:
+                    ctx.violation("history-replay:%s:%s" % (route, hist[k]["a"]),
+                                  "after the history, %s on the same instance is not that of a fresh instance with the "
+                                  "current eigen-solutions" % hist[k]["a"],
+                                  dict(key, step=k + 1, expected=want[k], observed=obs[k]))
+                    break
+            events.append(dict(route=route, crystal=entry, hist=hist, obs=obs))
+    ctx.traces += nrep
+    ctx.extra["history_replay"] = dict(replayed=nrep, worst_relative_deviation=worst,
+                                       plans=[(c[0], r, len(h)) for c, r, h in plans])
+    if worst > 1e-3 * TOL * 1e-12:
+        raise tlcmod.MachineryError("history deviation %g too close to the tolerance" % worst)
+    ctx.sample(events[len(events) // 3])
+    def wit(e):
+        return dict(route=e.get("route"), crystal=e.get("crystal"), hist=e.get("hist"), obs=e.get("obs"))
+
+    dist = list({to_tla(e): e for e in events}.values())
+    chunk = 1200
+    for c0 in range(0, len(dist), chunk):
+        part = dist[c0:c0 + chunk]
+        mct = MC_HISTT % (maxlen, ",\n".join(to_tla(e) for e in part))
+        res = judge(ctx, "history", "MC_RandomDispHistoryTrace", CFG_HISTT, mct, part, wit,
+                    coverage=(not ctx.quick and c0 == 0))
+        want_states = sum(len(e["hist"]) + 1 for e in part)
+        if not res.violations and res.distinct != want_states:
+            raise tlcmod.MachineryError("history trace validation incomplete: %d of %d states" % (res.distinct, want_states))
+
+
 def replay(ctx):
     """./check C19 --replay <file>: re-run the part of the check that produced the violation (same tier and seed
     as recorded) and print the recorded witness."""
@@ -1043,6 +1343,8 @@ def replay(ctx):
         run_td(ctx, build_oracles(ctx))
     elif key.startswith("tlc:MC_RandomDispCov"):
         run_cov_model(ctx)
+    elif key.startswith("history") or key.startswith("tlc:MC_RandomDispHistory"):
+        run_history(ctx, build_oracles(ctx))
     else:
         oracles = build_oracles(ctx)
         run_points(ctx, run_rd(ctx, oracles))
@@ -1054,13 +1356,16 @@ def run(ctx):
     ctx.rule = ("sampling structure: every supercell matrix (all sublattices of index <= 8 (quick) / 12 (thorough) as "
                 "Hermite normal forms plus random re-basings) is one case; canonical statistics: every (crystal, "
                 "supercell, centring, temperature, statistics, cutoff kind, stiffness scale); thermal displacements: "
-                "every (crystal, mesh, shift, temperature set, frequency window, direction)")
+                "every (crystal, mesh, shift, temperature set, frequency window, direction); histories: every action sequence of "
+                "length 3 (quick) / 4 (thorough) over run/run_correlation_matrix at 2 temperatures, 2 frequency scalings, "
+                "treat_imaginary_modes, run_d2f on one instance (class and Phonopy routes)")
     if ctx.replay_path:
         return replay(ctx)
     oracles = build_oracles(ctx)
     rd_events = run_rd(ctx, oracles)
     self_check_trace(ctx, rd_events)
     run_points(ctx, rd_events)
+    run_history(ctx, oracles)
     run_cov_model(ctx)
     run_td_model(ctx)
     run_td(ctx, oracles)
